@@ -84,7 +84,7 @@ CLAIMS = {
         text='Decides per layout that every prover message is absorbed exactly once and before the challenges that follow it, '
              'that the PoW digest is read before the nonce is absorbed, the sponge discipline of the 5 Transcript methods, '
              'who may write transcript state, distinct squeeze sites per challenge role, and absence of nondeterministic '
-             'callees. Equality with the transcript the prover logged is not decided. Added: no loop bound or exit condition in a transcript-touching function depends on a squeezed value (the number of transcript operations is fixed by configuration).',
+             'callees. Equality with the transcript the prover logged is not decided. Added: no loop bound or exit condition in a transcript-touching function depends on a squeezed value (the number of transcript operations is fixed by configuration). Added: a prover message is absorbed as sent (C08.verbatim: no in-place change of the vector between the proof field and the absorb).',
         ref='4 C08'),
     'C09': dict(
         technique='guard extraction + literal tables (difficulty bounds), dominance order rules, ordered mutation-event '
